@@ -85,6 +85,7 @@ type PeerCfg struct {
 	ImportPol   []string `json:"import_policy,omitempty"`
 	ExportPol   []string `json:"export_policy,omitempty"`
 	Late        bool     `json:"late,omitempty"` // not configured at start; added by an addpeer op
+	V4MP        bool     `json:"v4_mp,omitempty"` // the peer announces IPv4 unicast inside MP_REACH_NLRI (no NEXT_HOP attribute)
 }
 
 type UnknownAttr struct {
